@@ -641,6 +641,24 @@ def monitor_trackers(case, real):
                                 lo if lo == hi else f"{lo}..{hi}"))
             elif not len(calls) <= hi + 1:
                 bad.append((f"constant tracker {i} is handled floor(T/D)+1 times or once more", len(calls), f"{lo}..{hi + 1}"))
+    # fixed lists whose entries inside the range are at least dt apart: each served exactly once within dt/2
+    for i, tr in enumerate(case["trackers"]):
+        s = tr["sched"]
+        if s["kind"] != "fixed" or t1 < t0:
+            continue
+        pts = [e for e in s["interrupts"] if e >= t0]
+        inside = [e for e in pts if e <= t1]
+        upto = [e for e in pts if e < t1 + EPS * dt + tol + dt]  # entries that can interact with the range
+        if any(b - a < dt for a, b in zip(upto, upto[1:])) or sorted(s["interrupts"]) != list(s["interrupts"]):
+            continue
+        calls = [t for t, _ in per[i]]
+        for k, t in enumerate(calls):
+            if k >= len(pts) or abs(t - pts[k]) > dt / 2 + tol:
+                bad.append((f"call {k} of fixed-list tracker {i} within dt/2 of its scheduled time", t,
+                            pts[k] if k < len(pts) else "no entry left"))
+                break
+        if not stopped and len(calls) < len(inside):
+            bad.append((f"every entry <= t_end of fixed-list tracker {i} is served", calls, inside))
     # finalisation: every tracker exactly once, in order, on every path
     if real["finalized"] != list(range(n_tr)):
         bad.append(("every tracker finalised exactly once", real["finalized"], list(range(n_tr))))
